@@ -92,7 +92,7 @@ def impl(case):
     if C.warm_decide(case, 4) and not case.get("ts"):
         # query, edit the same object in place, query again (see common.warmup)
         C.warmup(G, lambda: [impl_query(G, lab, q, case.get("ts")) for q in case["Q"][:3]],
-                 layers=("circle", "directed", "bidirected", "undirected"))
+                 layers=("circle", "directed", "bidirected", "undirected"), marks=True)
     before = C.snapshot(G)
     out = {"ans": [impl_query(G, lab, q, case.get("ts")) for q in case["Q"]]}
     out["mutated"] = before != C.snapshot(G)
